@@ -228,7 +228,10 @@ type vc9Member struct {
 	RunLen  int       `json:"run_len"` // seconds a started run stays running; <0: until stopped
 	Ops     []vc9Op   `json:"ops"`
 	Variant string    `json:"variant,omitempty"` // inplace | rename (how files are changed while running)
-	Watch   bool      `json:"watch,omitempty"`
+	// LoopAdv != nil: the member runs the real Scheduler.start() loop; entry i is the time (ms) by which the wall
+	// clock moves forward while the loop handles its i-th tick (late / stalled handling); Ops is not used
+	LoopAdv []int `json:"loop_adv_ms,omitempty"`
+	Watch   bool  `json:"watch,omitempty"`
 }
 
 // ------------------------------------------------------------ reference ---
@@ -340,6 +343,20 @@ type vc9Daemon struct {
 	first      bool      // next tick is the first of this daemon instance
 	prevTicked time.Time // last minute ticked by this instance
 	bootMinute time.Time
+	baseG      int // goroutines of this instance at rest: the smallest count seen at the beginning of a tick
+}
+
+// vc9Goroutines: the goroutine count at rest. The runtime's finalizer goroutine is counted while it runs
+// a finalizer, so a single reading can be one too high; the smallest of a few readings is taken.
+func vc9Goroutines() int {
+	n := runtime.NumGoroutine()
+	for i := 0; i < 2 && n > 2; i++ {
+		runtime.Gosched()
+		if m := runtime.NumGoroutine(); m < n {
+			n = m
+		}
+	}
+	return n
 }
 
 type vc9FileRT struct {
@@ -736,19 +753,24 @@ func (r *vc9Run) pump() {
 	}
 }
 
-func (r *vc9Run) tick(t time.Time) {
-	h := r.h
-	if r.dead {
-		return
-	}
+// vc9TickCtx: what is known at the beginning of one evaluated minute.
+type vc9TickCtx struct {
+	t               time.Time
+	wall            time.Time // wall clock when the handling began (status snapshot)
+	effWall         time.Time // wall clock at which the issued operations take effect
+	um              int64
+	civ             ref.Civil
+	late, reTick    bool
+	firstOfInstance bool
+}
+
+// tickBegin takes the status snapshot the daemon will see while it handles minute t.
+func (r *vc9Run) tickBegin(t time.Time) *vc9TickCtx {
 	wall := now()
 	um := t.Unix() / 60
-	civ := ref.FromUnixMin(um)
-	late := vc9Trunc(wall).After(t)
-	reTick := r.lastTicked[um]
-	firstOfInstance := r.d.first
+	c := &vc9TickCtx{t: t, wall: wall, effWall: wall, um: um, civ: ref.FromUnixMin(um), late: vc9Trunc(wall).After(t),
+		reTick: r.lastTicked[um], firstOfInstance: r.d.first}
 	w := r.world
-
 	w.mu.Lock()
 	for _, f := range r.files {
 		s := f.st
@@ -756,8 +778,23 @@ func (r *vc9Run) tick(t time.Time) {
 		s.calls = [3]int{}
 	}
 	w.mu.Unlock()
+	return c
+}
+
+func (r *vc9Run) tick(t time.Time) {
+	if r.dead {
+		return
+	}
+	c := r.tickBegin(t)
 
 	base := runtime.NumGoroutine()
+	if r.d.baseG == 0 {
+		r.d.baseG = vc9Goroutines()
+	}
+	if base < r.d.baseG {
+		r.d.baseG = base
+	}
+	base = r.d.baseG // a reading taken while a finalizer runs is one too high; the instance's count at rest is constant
 	ticked := make(chan struct{})
 	go func() {
 		defer close(ticked)
@@ -786,6 +823,15 @@ func (r *vc9Run) tick(t time.Time) {
 			}
 		}
 	}
+	r.tickEnd(c)
+}
+
+// tickEnd compares the calls recorded while minute c.t was handled with the reference and applies
+// their effects to the environment.
+func (r *vc9Run) tickEnd(c *vc9TickCtx) {
+	h := r.h
+	t, wall, um, civ, late, reTick, firstOfInstance := c.t, c.wall, c.um, c.civ, c.late, c.reTick, c.firstOfInstance
+	w := r.world
 	h.res.Transitions++
 	r.lastTicked[um] = true
 
@@ -845,14 +891,14 @@ func (r *vc9Run) tick(t time.Time) {
 		}
 		// effects of the issued operations on the environment (applied after the tick, in a fixed order)
 		if got[vc9Stop] > 0 && s.has {
-			s.forever, s.until = false, wall
+			s.forever, s.until = false, c.effWall
 		}
 		if got[vc9Restart] > 0 || got[vc9Start] > 0 {
-			s.has, s.started = true, wall
+			s.has, s.started = true, c.effWall
 			if r.m.RunLen < 0 {
 				s.forever = true
 			} else {
-				s.forever, s.until = false, wall.Add(time.Duration(r.m.RunLen)*time.Second)
+				s.forever, s.until = false, c.effWall.Add(time.Duration(r.m.RunLen)*time.Second)
 			}
 		}
 		// model state visited
@@ -996,6 +1042,265 @@ func (r *vc9Run) events() {
 	}
 }
 
+// ------------------------------------------------- the real timer loop ---
+
+// vc9LoopReader stands between the real Scheduler.start() loop and the real entry reader. Read is
+// called by run(t) on the loop's goroutine at the beginning of every tick; the wrapper
+//   - first lets the operations of the previous tick finish, judges them and applies their effects
+//     (so the environment model is the same as in the tick-by-tick families),
+//   - records the minute handed to run (the argument is t - 1 s),
+//   - delegates to the real reader,
+//   - and then moves the fixed wall clock forward by the member's amount for this tick: the handling
+//     of the tick "takes" that long (stall, slow read, clock step).
+type vc9LoopReader struct {
+	r     *vc9Run
+	inner entryReader
+	base  int // goroutines when only the loop is running
+
+	mu       sync.Mutex
+	ticks    []time.Time
+	adv      []time.Duration
+	lastRead time.Time // real time at which the last Read returned
+	pend     *vc9TickCtx
+	overrun  bool
+}
+
+func (lr *vc9LoopReader) Start(done chan any) { lr.inner.Start(done) }
+
+func (lr *vc9LoopReader) finishPending() {
+	lr.mu.Lock()
+	c := lr.pend
+	lr.pend = nil
+	lr.mu.Unlock()
+	if c == nil {
+		return
+	}
+	r := lr.r
+	deadline := time.Now().Add(60 * time.Second)
+	for spins := 0; runtime.NumGoroutine() > lr.base; spins++ {
+		runtime.Gosched()
+		if spins > 1<<14 {
+			time.Sleep(50 * time.Microsecond)
+			if time.Now().After(deadline) {
+				r.violate("C09/hang/invoke", fmt.Sprintf("the operations spawned by run(%s) did not return within 60 s; %s", c.t.Format(time.RFC3339), r.describe()))
+				break
+			}
+		}
+	}
+	c.effWall = now()
+	r.tickEnd(c)
+	r.d.first = false
+}
+
+func (lr *vc9LoopReader) Read(arg time.Time) ([]*entry, error) {
+	r := lr.r
+	lr.finishPending()
+	t := arg.Add(time.Second)
+	lr.mu.Lock()
+	n := len(lr.ticks)
+	lr.ticks = append(lr.ticks, t)
+	if n >= 64 {
+		lr.overrun = true
+	}
+	over := lr.overrun
+	lr.mu.Unlock()
+	if over {
+		return nil, fmt.Errorf("verification harness: the loop ticked more than 64 times")
+	}
+	c := r.tickBegin(t)
+	entries, err := lr.inner.Read(arg)
+	var d time.Duration
+	if n < len(r.m.LoopAdv) {
+		d = time.Duration(r.m.LoopAdv[n]) * time.Millisecond
+	}
+	if d > 0 {
+		setFixedTime(now().Add(d))
+	}
+	lr.mu.Lock()
+	lr.adv = append(lr.adv, d)
+	lr.pend = c
+	lr.lastRead = time.Now()
+	lr.mu.Unlock()
+	return entries, err
+}
+
+// vc9LoopParked: is the goroutine running Scheduler.start blocked in its select?
+func vc9LoopParked() bool {
+	buf := make([]byte, 1<<16)
+	for {
+		n := runtime.Stack(buf, true)
+		if n < len(buf) {
+			buf = buf[:n]
+			break
+		}
+		buf = make([]byte, 2*len(buf))
+	}
+	for _, g := range bytes.Split(buf, []byte("\n\n")) {
+		if bytes.Contains(g, []byte("scheduler.(*Scheduler).start(")) {
+			nl := bytes.IndexByte(g, '\n')
+			return nl > 0 && bytes.Contains(g[:nl], []byte("[select"))
+		}
+	}
+	return false
+}
+
+func vc9Dur(d time.Duration) string {
+	if d == 0 {
+		return "0s"
+	}
+	return d.String()
+}
+
+// runLoop runs the real Scheduler.start() under the fixed clock until its timer waits for a minute
+// that lies in the (fixed) future, stops it, and checks which minutes were handed to run.
+func (r *vc9Run) runLoop() {
+	h := r.h
+	res := h.res
+	cfg := &config.Config{DAGs: r.dags, WorkDir: r.dir, LogDir: filepath.Join(r.dir, "logs"), Executable: "/nonexistent/blackdagger"}
+	s := New(cfg, vc9Logger{}, r.cli)
+	lr := &vc9LoopReader{r: r, inner: s.entryReader, lastRead: time.Now()}
+	s.entryReader = lr
+	r.d = &vc9Daemon{s: s, first: true}
+	t0 := now()
+	lr.base = vc9Goroutines() + 1
+	finished := make(chan struct{})
+	go func() {
+		defer close(finished)
+		s.start()
+	}()
+
+	// wait until the loop is quiescent: parked in its select while no tick is due
+	lastN, lastProgress := 0, time.Now()
+	verdictShort := false
+	for {
+		time.Sleep(5 * time.Millisecond)
+		lr.mu.Lock()
+		n, lastRead, over := len(lr.ticks), lr.lastRead, lr.overrun
+		var lastTick time.Time
+		if n > 0 {
+			lastTick = lr.ticks[n-1]
+		}
+		inRead := lr.pend == nil && n > 0 && len(lr.adv) < n
+		lr.mu.Unlock()
+		if over {
+			break
+		}
+		if n != lastN {
+			lastN, lastProgress = n, time.Now()
+		}
+		if n == 0 || inRead || !vc9LoopParked() {
+			if time.Since(lastProgress) > 10*time.Second {
+				res.CheckError("the timer loop made no progress for 10 s without parking (%d ticks so far); %s", n, r.describe())
+				r.aborted = true
+				break
+			}
+			continue
+		}
+		idle := time.Since(lastRead)
+		// a correct loop's next tick is lastTick + 1 min; it is due when that is not (or hardly) ahead of the wall clock
+		due := !lastTick.Add(time.Minute).After(now().Add(500 * time.Millisecond))
+		if !due && idle > 150*time.Millisecond {
+			break
+		}
+		if due && idle > 2500*time.Millisecond {
+			// parked although a minute is due: a due timer fires at once, so the loop waits for a later minute
+			verdictShort = true
+			break
+		}
+		if time.Since(lastProgress) > 10*time.Second {
+			res.CheckError("the timer loop did not become quiescent within 10 s; %s", r.describe())
+			r.aborted = true
+			break
+		}
+	}
+	s.Stop()
+	select {
+	case <-finished:
+	case <-time.After(30 * time.Second):
+		res.CheckError("Scheduler.start() did not return within 30 s after Stop(); %s", r.describe())
+		r.aborted = true
+		vc9LockHeldSeen = true // the goroutine cannot be reclaimed: later members of this shard would miscount goroutines
+		return
+	}
+	lr.base--
+	lr.finishPending()
+	for deadline := time.Now().Add(10 * time.Second); runtime.NumGoroutine() > h.baseG && time.Now().Before(deadline); {
+		time.Sleep(200 * time.Microsecond)
+	}
+	if r.aborted {
+		return
+	}
+
+	// the minutes handed to run: the minute of the start, then every following minute up to the wall clock, each once
+	wallEnd := now()
+	ticks, adv := lr.ticks, lr.adv
+	res.Count("loop_ticks", int64(len(ticks)))
+	var seq []string
+	for _, t := range ticks {
+		seq = append(seq, t.Format("15:04:05"))
+	}
+	dropped := func(from, to time.Time) string { // operations the reference expects in the minutes from..to (inclusive)
+		var out []string
+		for m := from; !m.After(to); m = m.Add(time.Minute) {
+			civ := ref.FromUnixMin(m.Unix() / 60)
+			for _, f := range r.files {
+				if !f.present || !f.cur.loadable || f.susp {
+					continue
+				}
+				for k, es := range [][]*ref.Expr{f.cur.starts, f.cur.stops, f.cur.restarts} {
+					if vc9CountMatch(es, civ) > 0 {
+						out = append(out, fmt.Sprintf("%s %s@%s", vc9KindName[k], f.spec.Name, m.Format("15:04")))
+					}
+				}
+			}
+		}
+		if len(out) == 0 {
+			return "none of this member's schedules match those minutes"
+		}
+		return "schedules matching those minutes, never evaluated: " + strings.Join(out, ", ")
+	}
+	about := fmt.Sprintf("loop started at wall clock %s, wall clock moved during the handling of successive ticks by %v ms, wall clock at the end %s; minutes handed to run: %v; %s",
+		t0.Format(time.RFC3339Nano), r.m.LoopAdv, wallEnd.Format(time.RFC3339Nano), seq, r.describe())
+	if lr.overrun {
+		r.violate("C09/loop/runaway", "the loop ticked more than 64 times without waiting: "+about)
+		return
+	}
+	if len(ticks) == 0 {
+		res.CheckError("the timer loop never ticked; %s", r.describe())
+		return
+	}
+	if !ticks[0].Equal(vc9Trunc(t0)) {
+		r.violate("C09/loop/first-tick-wrong", fmt.Sprintf("first minute handed to run is %s, want %s; %s", ticks[0].Format(time.RFC3339), vc9Trunc(t0).Format(time.RFC3339), about))
+	}
+	for i, t := range ticks {
+		if t.Unix()%60 != 0 || t.Nanosecond() != 0 {
+			r.violate("C09/loop/not-minute-aligned", fmt.Sprintf("run was handed %s; %s", t.Format(time.RFC3339Nano), about))
+		}
+		if i == 0 {
+			continue
+		}
+		prev := ticks[i-1]
+		ctx := "late-handling(d=" + vc9Dur(adv[i-1]) + ")"
+		switch {
+		case !t.After(prev):
+			r.violate("C09/loop/minute-run-twice/"+ctx, fmt.Sprintf("after minute %s the loop handed %s to run again; %s", prev.Format("15:04"), t.Format("15:04"), about))
+		case t.After(prev.Add(time.Minute)):
+			r.violate("C09/loop/missed-minute/"+ctx, fmt.Sprintf("after minute %s (whose handling took %s) the loop went on with %s: minutes %s..%s were never handed to run; %s; %s",
+				prev.Format("15:04"), vc9Dur(adv[i-1]), t.Format("15:04"), prev.Add(time.Minute).Format("15:04"), t.Add(-time.Minute).Format("15:04"), dropped(prev.Add(time.Minute), t.Add(-time.Minute)), about))
+		}
+	}
+	last := ticks[len(ticks)-1]
+	if last.Before(vc9Trunc(wallEnd)) {
+		ctx := "late-handling(d=" + vc9Dur(adv[len(adv)-1]) + ")"
+		how := "the loop is parked in its select"
+		if !verdictShort {
+			how = "the loop went quiescent"
+		}
+		r.violate("C09/loop/missed-minute/"+ctx, fmt.Sprintf("after minute %s (whose handling took %s) %s although the wall clock is already at %s: minutes %s..%s are not handed to run, the timer waits for a later minute; %s; %s",
+			last.Format("15:04"), vc9Dur(adv[len(adv)-1]), how, wallEnd.Format("15:04:05"), last.Add(time.Minute).Format("15:04"), vc9Trunc(wallEnd).Format("15:04"), dropped(last.Add(time.Minute), vc9Trunc(wallEnd)), about))
+	}
+}
+
 func (h *vc9H) run(m *vc9Member) {
 	h.idx++
 	if !h.mine(h.idx) {
@@ -1022,8 +1327,11 @@ func (h *vc9H) run(m *vc9Member) {
 		return
 	}
 	ticksBefore := res.Transitions
+	if m.LoopAdv != nil {
+		r.runLoop()
+	}
 	for _, op := range m.Ops {
-		if r.aborted || r.watchDead {
+		if m.LoopAdv != nil || r.aborted || r.watchDead {
 			break
 		}
 		n := op.N
@@ -1469,6 +1777,80 @@ func (h *vc9H) famYear() {
 	}
 }
 
+// the real Scheduler.start() loop with late / stalled handling of a chosen tick
+func (h *vc9H) famLoop() {
+	D := []int{0, 30000, 60000, 150000, 300000}
+	base, _ := time.Parse(time.RFC3339, "2031-05-14T09:58:00Z")
+	at := func(j int) string { // expression matching only the j-th minute after the base minute
+		x := base.Add(time.Duration(j) * time.Minute)
+		return fmt.Sprintf("%d %d * * *", x.Minute(), x.Hour())
+	}
+	str := func(e string) *vc9Def { return &vc9Def{Form: "string", Starts: []string{e}} }
+	type set struct {
+		name   string
+		files  []vc9File
+		hist   string
+		runLen int
+	}
+	sets := []set{
+		{"every-minute", []vc9File{{Name: "a.yaml", Kind: "valid", Pre: str("* * * * *")}}, "none", 0},
+		{"one-dag-per-later-minute", []vc9File{{Name: "at1.yaml", Kind: "valid", Pre: str(at(1))}, {Name: "at2.yaml", Kind: "valid", Pre: &vc9Def{Form: "list", Starts: []string{at(2)}}},
+			{Name: "at3.yaml", Kind: "valid", Pre: &vc9Def{Form: "map", Starts: []string{at(3)}}}}, "none", 0},
+		{"start-stop-restart", []vc9File{{Name: "a.yaml", Kind: "valid", Pre: &vc9Def{Form: "map", Starts: []string{"* * * * *"}, Stops: []string{"*/2 * * * *"}, Restarts: []string{at(1), at(4)}}}}, "none", -1},
+		{"mixed-set", []vc9File{{Name: "a.yaml", Kind: "valid", Pre: str("* * * * *")}, {Name: "b.yaml", Kind: "suspended", Pre: str("* * * * *"), SuspPre: true, SuspPost: true},
+			{Name: "c.yaml", Kind: "malformed", Pre: &vc9Def{Raw: vc9BadYAML[0]}}, {Name: "d.yaml", Kind: "valid", Pre: &vc9Def{Form: "map", Restarts: []string{at(2)}}}}, "none", 0},
+		{"every-minute/ran-a-minute-ago", []vc9File{{Name: "a.yaml", Kind: "valid", Pre: str("* * * * *")}}, "prev-minute", 150},
+	}
+	emit := func(pattern string, start time.Time, adv []int) {
+		for _, st := range sets {
+			h.run(&vc9Member{Fam: "loop/" + st.name, Window: pattern, Start: start.Format(time.RFC3339Nano), Hist: st.hist, RunLen: st.runLen,
+				Files: st.files, LoopAdv: append([]int{}, adv...)})
+		}
+	}
+	// the first tick is handled late
+	for _, off := range []time.Duration{0, 30 * time.Second} {
+		for _, d := range D {
+			emit(fmt.Sprintf("stall-tick1/start+%s/d=%dms", off, d), base.Add(off), []int{d})
+		}
+	}
+	// the 2nd / 3rd tick is handled late: the loop starts 100 ms before a minute boundary, so its second timer is
+	// armed with 100 real ms and fires while the wall clock is still 100 ms short of the minute; every further on-time
+	// tick moves the clock by exactly one minute, which again arms the following timer with 100 ms
+	for k := 2; k <= 3; k++ {
+		for _, d := range D {
+			adv := []int{0}
+			for i := 2; i < k; i++ {
+				adv = append(adv, 60000)
+			}
+			emit(fmt.Sprintf("stall-tick%d/d=%dms", k, d), base.Add(-100*time.Millisecond), append(adv, d))
+		}
+	}
+	n := 20
+	if h.tier == "thorough" {
+		// every sequence of delays for up to three successive overdue ticks
+		var rec func(start time.Time, off time.Duration, adv []int, wall, cursor time.Time)
+		rec = func(start time.Time, off time.Duration, adv []int, wall, cursor time.Time) {
+			for _, d := range D {
+				a := append(append([]int{}, adv...), d)
+				w := wall.Add(time.Duration(d) * time.Millisecond)
+				c := cursor.Add(time.Minute)
+				if len(a) < 3 && !c.After(w) {
+					rec(start, off, a, w, c)
+					continue
+				}
+				if len(a) > 1 {
+					emit(fmt.Sprintf("stall-seq/start+%s/%v", off, a), start, a)
+					n++
+				}
+			}
+		}
+		for _, off := range []time.Duration{0, 30 * time.Second} {
+			rec(base.Add(off), off, nil, base.Add(off), base)
+		}
+	}
+	h.res.Bounds["real_loop_delay_patterns_x_schedule_sets"] = fmt.Sprintf("%d x %d", n, len(sets))
+}
+
 type vc9NoEntries struct{}
 
 func (vc9NoEntries) Start(chan any)                   {}
@@ -1566,6 +1948,7 @@ func TestVerifC09(t *testing.T) {
 
 	h.famNextTick()
 	h.famYear()
+	h.famLoop()
 	h.famSets()
 	h.famExtras()
 	h.famRestart()
@@ -1577,7 +1960,8 @@ func TestVerifC09(t *testing.T) {
 	res.Bounds["calendar_windows"] = len(vc9Windows)
 	res.Bounds["late_timer_minutes"] = "2..5 at every offset 0..7 of a 16-minute window"
 	res.Bounds["restart_offsets"] = "minute 0,1,2 of a 3-minute window x {at the minute, 30 s into it} x {no downtime, 2 minutes down}"
-	res.Assume("the real-time loop Scheduler.start() itself is not executed: its body (run(t); t = nextTick(t); timer.Reset(t.Sub(now()))) is replayed by the harness with the daemon's own fixed-clock seam — a timer armed with a non-positive duration fires at once, so the loop ticks while t <= now(); run(t) and nextTick(t) are the real functions, nextTick is additionally checked on its own")
+	res.Assume("tick-by-tick families: the body of Scheduler.start() (run(t); t = nextTick(t); timer.Reset(t.Sub(now()))) is replayed by the harness with the daemon's own fixed-clock seam — a timer armed with a non-positive duration fires at once, so the loop ticks while t <= now(); run(t) and nextTick(t) are the real functions. The loop family runs the real Scheduler.start() (real timer, real select, real Stop()) under the fixed clock, with a wrapper around the real entry reader that records the minute of every run/Read and moves the fixed clock while a chosen tick is handled; only timers that are already due, or due within 100 real ms, are waited for — a wait for a future minute ends the member. Scheduler.Start()'s signal handling and context cancellation are not explored")
+	res.Assume("loop family: the loop counts as quiescent when its goroutine is parked in the select of start() and no Read happened for 150 real ms while no minute is due, or for 2.5 real s while a minute is due (a due timer fires at once, so the latter means the timer waits for a later minute); 10 s without either is a check error")
 	res.Assume("status seen by the daemon during one tick is the status at the beginning of that tick (client.Start blocks in cmd.Wait and the child process publishes its status only after its own start-up, while all entries of a tick probe within microseconds); effects of the issued calls on the environment are applied after the tick")
 	res.Assume("UTC only (TZ=UTC); daylight-saving transitions are outside the family")
 	res.Assume("day-of-week 7: robfig/cron's standard parser documents 0-6 and refuses 7, so a definition using 7 is an unloadable file here (no calls expected, other files unaffected); counted in dow7_rejected_by_loader_members")
